@@ -137,6 +137,7 @@ class C01(Check):
     PID = "C01"
     HEADER = "From Coq Require Import String. From Verif Require Import C01.Model C01.Run. Open Scope string_scope."
     RUN = "run_case"
+    CASE_TYPE = "case"
     N_QUICK = 900
     N_THOROUGH = 30000
     RULE = ("expression strings from a grammar covering numeric/boolean/string/sequence expressions over the allow-list "
